@@ -242,6 +242,10 @@ class LaplacianChannel(BaseChannel):
 
         # Handle complex input
         if torch.is_complex(x):
+            if self.scale is None:
+                # A noise power (given directly or through the SNR) is the total power of the complex
+                # noise: split it evenly between the real and imaginary components
+                scale = scale / (2**0.5)
             noise_real = self._get_laplacian_noise(x.real.shape, x.device) * scale
             noise_imag = self._get_laplacian_noise(x.imag.shape, x.device) * scale
             noise = torch.complex(noise_real, noise_imag)
